@@ -1370,7 +1370,7 @@ def m_list_pop_back(sim, st, c):
 @pattern(r"^std::(collections::VecDeque|vec::Vec)::<T, A>::len$")
 def m_list_len(sim, st, c):
     l = list_at(sim, st, sim.deref_value(st, c["args"][0]))
-    return Const(len(l.data[0]), prim("usize"))
+    return LenConst(len(l.data[0]), prim("usize"))
 
 
 @pattern(r"^std::(collections::VecDeque|vec::Vec)::<T, A>::is_empty$")
